@@ -46,6 +46,8 @@ def strategy(tier):
                   "time_dtype": draw(st.sampled_from(["f8", "f8", "i4"])),
                   "with_altitude": draw(st.sampled_from([True, True, False])),
                   "with_location": draw(st.sampled_from([True, True, False])),
+                  "with_lat": draw(st.sampled_from([True, True, True, False])),
+                  "with_lon": draw(st.sampled_from([True, True, True, False])),
                   "nc_format": draw(st.sampled_from(["NETCDF4", "NETCDF4", "NETCDF4"] + NC_FORMATS)),
                   "metric": draw(st.sampled_from(["mae", "rmse", "corr", "obs", "ets", "bs", "pit", "quantilescore"])),
                   "axis": draw(st.sampled_from(["no", "time", "leadtime", "location"]))}
@@ -77,6 +79,11 @@ def normalise(spec, layout):
             newlocs.append(loc)
         sp["locs"] = newlocs
         d["si"] = list(range(len(newlocs)))
+    # a NetCDF file without a lat (lon) variable describes locations at latitude (longitude) 0
+    for key in ("lat", "lon"):
+        if not layout.get("with_" + key, True):
+            used = set(d["si"])
+            sp["locs"] = [dict(loc, **{key: 0.0}) if k in used else loc for k, loc in enumerate(sp["locs"])]
     if layout["time_dtype"] == "i4" and any(t >= 2 ** 31 for t in sp["times"]):
         layout = dict(layout, time_dtype="f8")
     return sp, layout
@@ -184,7 +191,7 @@ def check_agree(case, ctx):
     txt = os.path.join(base, "data.txt")
     mat.write_netcdf(d, spec, nc, missing=layout["missing"], dtype=layout["dtype"], time_dtype=layout["time_dtype"],
                      with_altitude=layout["with_altitude"], with_location=layout["with_location"],
-                     nc_format=layout.get("nc_format", "NETCDF4"))
+                     nc_format=layout.get("nc_format", "NETCDF4"), with_lat=layout.get("with_lat", True), with_lon=layout.get("with_lon", True))
     mat.write_text(d, spec, txt)
     fams = sum(1 for k in ("cdf", "qs", "ens", "pit", "other") if d.get(k))
     has_missing = any(v is None for pl in d["fcst"] for row in pl for v in row)
